@@ -6,7 +6,7 @@ package c03
 import (
 	"errors"
 	"fmt"
-	"github.com/NethermindEth/juno/db/memory"
+	"sync"
 	"testing"
 
 	"verif/mc/chain"
@@ -41,54 +41,63 @@ func TestCheck(t *testing.T) {
 	depth := ev.Pick(r, 3, 5)
 	var queries, states, transitions int64
 	distinct := map[string]bool{}
+	// the two state backends are explored side by side (the BFS is level-parallel and its shallow levels leave most
+	// cores idle); counters and reporting are goroutine-safe, the totals below are guarded by mu
+	var mu sync.Mutex
+	var wg sync.WaitGroup
 	for _, newState := range []bool{false, true} {
-		for _, vc := range versionConfigs {
-			d := depth
-			if r.Quick() && vc.name == "0.14.0->0.14.1@2" {
-				d = 4 // the mixed-version configuration (the only one with CASM migration) goes one level deeper
-			}
-			label := vc.name + hist.Backend(newState)
-			st := hist.Explore(hist.Config{
-				NewState: newState, Depth: d, VersionAt: vc.at, Run: r, Label: label,
-				Visit: func(n *hist.Node, bc *blockchain.Blockchain) {
-					q := checkNode(r, n, bc, label)
-					r.Add("evaluations", int64(q))
-					abandoned(r, n, newState, vc.at, label)
-					// the same history on one long-lived node (no restart between the operations)
-					if len(n.Ops) >= 2 {
-						lbc, ld, err := n.ReplayLongLived(newState)
-						if err != nil {
-							r.Violate("history-fails-on-long-lived-node "+label+n.Exotic(), map[string]any{"path": n.PathString(), "err": err.Error()})
-							return
-						}
-						if chain.ImageHash(ld) != n.Key {
-							r.Outcome("long-lived image differs from restart-per-op image")
-						}
-						q := checkNode(r, n, lbc, label+" [long-lived]")
+		wg.Add(1)
+		go func(newState bool) {
+			defer wg.Done()
+			for _, vc := range versionConfigs {
+				d := depth
+				if r.Quick() && vc.name == "0.14.0->0.14.1@2" {
+					d = 4 // the mixed-version configuration (the only one with CASM migration) goes one level deeper
+				}
+				label := vc.name + hist.Backend(newState)
+				hc := heldTier(r, newState, label, label+" [long-lived]")
+				st := hist.Explore(hist.Config{
+					NewState: newState, Depth: d, VersionAt: vc.at, Run: r, Label: label, Workers: 9,
+					Visit: func(n *hist.Node, bc *blockchain.Blockchain) {
+						q := checkNode(r, n, bc, label)
 						r.Add("evaluations", int64(q))
-						r.Add("long_lived_replays", 1)
-					}
-				},
-			})
-			states += int64(st.States)
-			transitions += int64(st.Transitions)
-			distinct[label] = true
-			r.Sample(map[string]any{"config": label, "states": st.States, "transitions": st.Transitions, "per_depth": st.PerDepth})
-		}
+						abandoned(r, n, newState, vc.at, label)
+					},
+					// every transition (also those that lead to a state already seen): the same history on ONE long-lived
+					// node (no restart between the operations) with HELD READERS (held_test.go), then the ordinary read sweep
+					OnStore:  func(_, child *hist.Node, _ chain.Named) { heldTransition(r, hc, child) },
+					OnRevert: func(_, child *hist.Node) { heldTransition(r, hc, child) },
+				})
+				mu.Lock()
+				states += int64(st.States)
+				transitions += int64(st.Transitions)
+				distinct[label] = true
+				mu.Unlock()
+				r.Sample(map[string]any{"config": label, "states": st.States, "transitions": st.Transitions, "per_depth": st.PerDepth})
+			}
+		}(newState)
 	}
+	wg.Wait()
 	// deep reorgs: the BFS bound (3-5 operations) is below the six operations of "two blocks stored, both reverted, another
 	// block stored" on top of a non-empty state. That family is enumerated on its own: S (every state of depth <= 1),
 	// every branch x1,x2, two reverts, every y - on one long-lived node - then the full read sweep against the dictionary.
 	for _, newState := range []bool{false, true} {
-		for vi, vc := range versionConfigs {
-			if r.Quick() && vi != 0 && vc.name != "0.14.0->0.14.1@2" {
-				continue
+		wg.Add(1)
+		go func(newState bool) {
+			defer wg.Done()
+			for vi, vc := range versionConfigs {
+				if r.Quick() && vi != 0 && vc.name != "0.14.0->0.14.1@2" {
+					continue
+				}
+				n := deepReorgs(r, newState, vc.at, vc.name+hist.Backend(newState))
+				mu.Lock()
+				transitions += n
+				mu.Unlock()
+				r.Add("deep_reorg_histories", n)
 			}
-			n := deepReorgs(r, newState, vc.at, vc.name+hist.Backend(newState))
-			transitions += n
-			r.Add("deep_reorg_histories", n)
-		}
+		}(newState)
 	}
+	wg.Wait()
 	queries = r.Get("evaluations")
 	r.Set("states", states)
 	r.Set("transitions", transitions)
@@ -96,7 +105,11 @@ func TestCheck(t *testing.T) {
 	r.Set("distinct_nontrivial", states)
 	r.Set("queries", queries)
 	r.Set("rule", fmt.Sprintf("BFS over {store(block alphabet), revertHead} to depth %d (quick: 4 for the mixed-version config) on the real Blockchain (fresh instance per op = restart), state = concrete KV image; "+
-		"in every distinct state every retained block x {by number, by hash, head} x every (contract, slot) / nonce / class hash / class / casm hash of the universe is read and compared with the dictionary state", depth))
+		"in every distinct state every retained block x {by number, by hash, head} x every (contract, slot) / nonce / class hash / class / casm hash of the universe is read and compared with the dictionary state; "+
+		"HELD READERS: every transition's history (and every deep-reorg history) runs on one long-lived node; %s every reader the node hands out (head, by number and by hash for every retained block) is obtained, swept, "+
+		"kept across the following operations (%s) and swept again after each of them: a reader of a block that stays retained must keep answering with the state as of its block, a head reader with the state of the current head "+
+		"(or of the head when obtained); readers whose block was reverted meanwhile carry no requirement (counted in the outcome histogram)", depth,
+		ev.Pick(r, "at the last two states before the end of the history", "at every state of the history"), ev.Pick(r, "one and two operations", "all the remaining operations")))
 	r.Assume = append(r.Assume, "block alphabet of mc/chain/alphabet.go; Pedersen/Poseidon primitives trusted", "go map iteration order inside juno not controlled")
 	r.Finish()
 }
@@ -151,38 +164,23 @@ func deepReorgs(r *ev.Run, newState bool, at func(uint64) string, label string) 
 			}
 		}
 	}
+	hc := heldTier(r, newState, label+" [deep reorg]", label+" [deep reorg]")
 	ev.Par(len(jobs), 14, func(i int) {
 		if r.OutOfTime() {
 			r.Incomplete("deep reorgs " + label)
 			return
 		}
 		j := jobs[i]
-		d := memory.New()
-		bc := chain.NewNode(d, newState)
-		var parent *chain.Entry
-		for _, e := range j.st.chain {
-			if err := chain.StoreSync(bc, e.Fresh(parent)); err != nil {
-				return // owned by C01
-			}
-			parent = e
+		// executed with held readers (held_test.go): readers obtained along the way are kept across the reverts / the store
+		ops := append(append([]*chain.Entry{}, j.st.chain...), j.x1, j.x2, nil, nil, j.y)
+		path := append(append([]string{}, j.st.names...), "store:"+j.n1, "store:"+j.n2, "revert", "revert", "store:"+j.ny)
+		n := &hist.Node{Path: path}
+		bc, d, stack, reverted, err := heldRun(r, hc, ops, path, n.Exotic())
+		if err != nil {
+			return // owned by C01 / C04
 		}
-		stemHead := parent
-		for _, e := range []*chain.Entry{j.x1, j.x2} {
-			if err := chain.StoreSync(bc, e.Fresh(parent)); err != nil {
-				return
-			}
-			parent = e
-		}
-		for k := 0; k < 2; k++ {
-			if err := bc.RevertHead(); err != nil {
-				return // owned by C04
-			}
-		}
-		if err := chain.StoreSync(bc, j.y.Fresh(stemHead)); err != nil {
-			return
-		}
-		n := &hist.Node{DB: d, Chain: append(append([]*chain.Entry{}, j.st.chain...), j.y),
-			Path: append(append([]string{}, j.st.names...), "store:"+j.n1, "store:"+j.n2, "revert", "revert", "store:"+j.ny)}
+		r.Add("held_reader_histories", 1)
+		n.DB, n.Chain, n.Reverted = d, stack, reverted
 		q := checkNode(r, n, bc, label+" [deep reorg]")
 		r.Add("evaluations", int64(q))
 	})
@@ -314,98 +312,10 @@ func checkNode(r *ev.Run, n *hist.Node, bc *blockchain.Blockchain, label string)
 		r.Violate(fmt.Sprintf("%s %s %s%s", kind, hd, label, n.Exotic()), detail)
 	}
 	for _, v := range views {
-		for _, a := range universeAddrs {
-			a := a
-			c, exists := v.want.Contracts[a]
-			ch, err := v.reader.ContractClassHash(&a)
-			q++
-			switch {
-			case exists && !c.System:
-				if err != nil || !ch.Equal(&c.Class) {
-					bad("class-hash-wrong", v, map[string]any{"addr": a.String(), "got": ch.String(), "err": fmt.Sprint(err), "want": c.Class.String()})
-				}
-			case !exists && !isSys(&a):
-				if err == nil {
-					bad("undeployed-contract-has-class-hash", v, map[string]any{"addr": a.String(), "got": ch.String()})
-				}
-			default: // system contracts: error or zero
-				if err == nil && !ch.IsZero() {
-					bad("system-contract-class-hash-nonzero", v, map[string]any{"addr": a.String(), "got": ch.String()})
-				}
-			}
-			nc, err := v.reader.ContractNonce(&a)
-			q++
-			switch {
-			case exists && !c.System:
-				if err != nil || !nc.Equal(&c.Nonce) {
-					bad("nonce-wrong", v, map[string]any{"addr": a.String(), "got": nc.String(), "err": fmt.Sprint(err), "want": c.Nonce.String()})
-				}
-			case !exists && !isSys(&a):
-				if err == nil {
-					bad("undeployed-contract-has-nonce", v, map[string]any{"addr": a.String(), "got": nc.String()})
-				}
-			default:
-				if err == nil && !nc.IsZero() {
-					bad("system-contract-nonce-nonzero", v, map[string]any{"addr": a.String()})
-				}
-			}
-			for _, s := range universeSlots {
-				s := s
-				val, err := v.reader.ContractStorage(&a, &s)
-				q++
-				var want felt.Felt
-				if exists {
-					want = c.Storage[s]
-				}
-				if exists {
-					if err != nil || !val.Equal(&want) {
-						bad("storage-wrong", v, map[string]any{"addr": a.String(), "slot": s.String(), "got": val.String(), "err": fmt.Sprint(err), "want": want.String()})
-					}
-				} else if err == nil && !val.IsZero() {
-					// a contract that does not exist (yet / any more): not-found error or zero are both acceptable here
-					bad("storage-of-nonexistent-contract-nonzero", v, map[string]any{"addr": a.String(), "slot": s.String(), "got": val.String()})
-				}
-			}
-		}
-		for _, h := range classHashes() {
-			h := h
-			rec, declared := v.want.Classes[h]
-			dc, err := v.reader.Class(&h)
-			q++
-			if declared {
-				if err != nil || dc == nil {
-					bad("declared-class-not-found", v, map[string]any{"class": h.String(), "err": fmt.Sprint(err)})
-				} else {
-					if dc.At != rec.At {
-						bad("class-declared-at-wrong", v, map[string]any{"class": h.String(), "got": dc.At, "want": rec.At})
-					}
-					if _, isSierra := dc.Class.(*core.SierraClass); isSierra != rec.Sierra {
-						bad("class-kind-wrong", v, map[string]any{"class": h.String()})
-					} else if isSierra {
-						if gh, e := dc.Class.Hash(); e != nil || !gh.Equal(&h) {
-							bad("class-definition-wrong", v, map[string]any{"class": h.String()})
-						}
-					}
-				}
-			} else if err == nil {
-				bad("undeclared-class-found", v, map[string]any{"class": h.String(), "at": dc.At})
-			}
-			sh := felt.SierraClassHash(h)
-			casm, err := v.reader.CompiledClassHash(&sh)
-			q++
-			if declared && rec.Sierra {
-				want := rec.Casm()
-				if err != nil || !(*felt.Felt)(&casm).Equal(&want) {
-					bad("casm-hash-wrong", v, map[string]any{"class": h.String(), "got": (*felt.Felt)(&casm).String(), "err": fmt.Sprint(err), "want": want.String()})
-				}
-				c2, err := v.reader.CompiledClassHashV2(&sh)
-				q++
-				if err != nil || !(*felt.Felt)(&c2).Equal(&rec.CasmV2) {
-					bad("casm-hash-v2-wrong", v, map[string]any{"class": h.String(), "got": (*felt.Felt)(&c2).String(), "err": fmt.Sprint(err)})
-				}
-			} else if !declared && err == nil {
-				bad("undeclared-class-has-casm-hash", v, map[string]any{"class": h.String()})
-			}
+		ms, nq := sweep(v.reader, v.want)
+		q += nq
+		for _, m := range ms {
+			bad(m.kind, v, m.detail)
 		}
 	}
 	return q
